@@ -387,7 +387,10 @@ func lifecycleHarness(rc *RunCtx) {
 	undetected := false
 	settle := func(d time.Duration) {
 		simrt.Block(siteSettle)
-		time.Sleep(d)
+		// the odd offset keeps this wake-up from coinciding with any timer of
+		// the system (all of those are whole milliseconds): when it returns,
+		// everything that became runnable earlier has run to a blocked state
+		time.Sleep(d + 1777*time.Nanosecond)
 		simrt.Yield(siteSettle)
 		// simulated time has passed, so everything runnable has run: a failure
 		// the read loop has seen must have closed the transport by now
